@@ -479,6 +479,9 @@ def compare(op, a, b):
     """-> z3 Bool, Python semantics incl. NaN."""
     if isinstance(a.kind, KNone) or isinstance(b.kind, KNone) or isinstance(a.kind, KOpt) or isinstance(b.kind, KOpt):
         return compare_none(op, a, b)
+    if op in ("==", "!=") and ((isinstance(a.kind, KRef) and isinstance(b.kind, KStr) and b.py == "") or
+                               (isinstance(b.kind, KRef) and isinstance(a.kind, KStr) and a.py == "")):
+        return FALSE if op == "==" else TRUE
     if is_num(a) and is_num(b):
         if is_intlike(a) and is_intlike(b):
             if isinstance(a.kind, KBool) and isinstance(b.kind, KBool) and op in ("==", "!="):
@@ -523,6 +526,12 @@ def compare(op, a, b):
 
 
 def compare_none(op, a, b):
+    # modelling convention: the empty string used as a "no object" marker (Node.antecedent == "") is None
+    if isinstance(a.kind, KStr) and a.py == "":
+        a = vnone()
+    if isinstance(b.kind, KStr) and b.py == "":
+        b = vnone()
+
     def isnone(v):
         if isinstance(v.kind, KNone):
             return TRUE
